@@ -157,12 +157,13 @@ Print Assumptions C17_closed_scalars.
 (* fields_ok: no user-declared field is both optional and required/primary (buildProperty);
    *_params_ok: every ":name" part of a method path is a request field (visitServiceMethodNode) *)
 Example C17_compile_is_expand : forall e,
+  list_settings e = false ->
   (forall fl, user_refs_ok e (defined (expand_with e fl)) = true) ->
   fields_ok e = true -> query_params_ok e = true -> command_params_ok e = true -> convert e = expand e.
 Proof. exact compile_expand. Qed.
 Print Assumptions C17_compile_is_expand.
 
-Example C17_compile_errors : forall e cs, expand e = Ok cs ->
+Example C17_compile_errors : forall e cs, expand e = Ok cs -> list_settings e = false ->
   convert e = if user_refs_ok e (defined cs) then
                 if fields_ok e then
                   if query_params_ok e && command_params_ok e then Ok cs
@@ -185,6 +186,15 @@ Print Assumptions C17_query_params_ok.
 Example C17_expand_total : forall e, is_panic (expand e) = false /\ expand e <> OutOfFuel.
 Proof. exact expand_total. Qed.
 Print Assumptions C17_expand_total.
+
+(* Go panics are not hidden by the model: the conversion panics exactly when the walker accepted a
+   declaration whose query block carries listRequest / eventsListRequest settings (SetExtension of a
+   MessageOptions extension on MethodOptions in visitServiceMethodNode; cmpb's known C07 finding;
+   outside C17's quantifier: [in_quantifier] requires list_settings e = false) *)
+Theorem C17_convert_panics : forall e,
+  is_panic (convert e) = true <-> (exists cs, expand e = Ok cs) /\ list_settings e = true.
+Proof. exact convert_panics. Qed.
+Print Assumptions C17_convert_panics.
 
 (* 3. the same annotation everywhere: psm options and service options carry
       ToSnake(name), topics carry <package>.ToCamel(name) *)
@@ -496,7 +506,7 @@ Definition C17_sample : entity :=
       [mkC None None [mkM (bs "DoIt") 2 (bs ":fooId/doit") [mkU (bs "fooId") (KKey false None None) false false] (Some []);
                       mkM (bs "Download") 1 (bs "dl") [] None]]
       [mkS [] [mkU (bs "name") (KScalar 9 (bs "string")) false false]]
-      (Some (mkQ true [bs "ACTIVE"]))
+      (Some (mkQ true [bs "ACTIVE"] false))
       [SObject (bs "Address") [mkU (bs "street") (KScalar 9 (bs "string")) false false];
        SEnum (bs "Kind") [bs "A"; bs "B"];
        SOneof (bs "Choice") [mkU (bs "a") (KScalar 9 (bs "string")) false false]].
